@@ -6,7 +6,7 @@
    path, so the closure is finite); SeekIter for every probe of every layer. *)
 EXTENDS MastCursorOps
 
-CONSTANTS NK, MaxLayer, MaxH, AsIs
+CONSTANTS NK, MaxLayer, MaxH, AsIs, Restore
 Keys == 1..NK
 
 VARIABLES layer, keys, h, ph, path, pos, phase, bad
@@ -34,6 +34,13 @@ Spec == Init /\ [][Next]_vars
 \* C10: no call fails or panics, and Get agrees with the sorted sequence after every sequence of moves
 NoFailure == bad = ""
 Agrees == (phase = "walk" /\ bad = "") => Get_(path) = At(S, pos)
+\* C12 for navigation: whatever Load fails inside a Forward / Backward, making the same call again on the same cursor gives the
+\* normal result (checked in every reachable cursor position, for every position of the failing Load)
+RetrySafe == (phase = "walk" /\ bad = "") =>
+               \A f \in 0..MaxH+1 :
+                  LET r == ForwardF(path, f, Restore)  b == BackwardF(path, f, Restore)
+                  IN /\ (r.bad = "err" => Forward_(r.p) = Forward_(path))
+                     /\ (b.bad = "err" => Backward_(b.p, FALSE) = Backward_(path, FALSE))
 \* C10, second half: SeekIter(p) yields exactly the entries >= p, ascending, each once (hence every prefix of it when the
 \* callback signals done) -- a state predicate of the tree alone, evaluated in the initial states
 SeekOK == phase = "start" =>
